@@ -1,3 +1,3 @@
 """Per-property level and explanation strings used in the evidence files."""
-LEVELS = {"C02": "proof", "C03": "proof"}
+LEVELS = {"C02": "proof", "C03": "proof", "C16": "proof"}
 EXPLAIN = {}
